@@ -651,7 +651,13 @@ fn write_replay(prop: &str, rel: &str, tape: &[u64], exact: bool, f: &Fail, seed
         h.push(*w);
     }
     let safe: String = rel.chars().map(|c| if c.is_ascii_alphanumeric() { c } else { '_' }).collect();
-    let path = dir.join(format!("{}-{}-{:016x}.json", prop, safe, h.0));
+    // a second build variant of the same check (VH_VARIANT=asm: ark-ff with the `asm` feature) marks its replay files, so
+    // that `./check Cxx --replay` re-executes them with the binary of that variant
+    let variant = std::env::var("VH_VARIANT").ok().filter(|v| !v.is_empty() && v.chars().all(|c| c.is_ascii_alphanumeric()));
+    let path = match &variant {
+        Some(v) => dir.join(format!("{}-{}-{:016x}-{}.json", prop, safe, h.0, v)),
+        None => dir.join(format!("{}-{}-{:016x}.json", prop, safe, h.0)),
+    };
     let rf = ReplayFile {
         property: prop.to_string(),
         relation: rel.to_string(),
